@@ -21,9 +21,9 @@ var c08ReviewedRanges = []struct{ Fn, Over, Why string }{
 	{"reconstructThresholdSignature", "PartialSigns", "files each share under its message id (per-key append); the order inside one key's list is given by the outer, ordered participant slice"},
 	{"reconstructThresholdSignature", "makemap<types.BatchPartialSignatures>", "the result slice is stored by SaveSignatures keyed by batch and message id and broadcast as this node's own message; its order is not part of the round state"},
 	{"StatesList", "f.transitions", "the list is only searched for membership / used to fill maps"},
-	{"StatesList", "makemap<map[fsm.State]bool>", "idem"},
+	{"StatesList", "makemap<map[fsm.State]*>", "idem (a local set of states, whatever its value type)"},
 	{"EventsList", "f.transitions", "the list is only used to fill the pool's event map"},
-	{"EventsList", "makemap<map[fsm.Event]bool>", "idem"},
+	{"EventsList", "makemap<map[fsm.Event]*>", "idem (a local set of events, whatever its value type)"},
 	{"FinStatesList", "f.finStates", "the list is only used to fill the pool's state map"},
 }
 
@@ -111,7 +111,14 @@ func c08MapRanges(c *Ctx, scope []*ssa.Function) {
 				return
 			}
 			for i, rv := range c08ReviewedRanges {
-				if rv.Fn == f.Name() && strings.HasSuffix(over, rv.Over) {
+				match := strings.HasSuffix(over, rv.Over)
+				if strings.HasSuffix(rv.Over, "*>") { // a local map of the given key type, any value type
+					pre := strings.TrimSuffix(rv.Over, "*>")
+					if i := strings.LastIndex(over, pre); i >= 0 && strings.HasSuffix(over, ">") && !strings.Contains(over[i+len(pre):len(over)-1], "]") {
+						match = true
+					}
+				}
+				if rv.Fn == f.Name() && match {
 					usedReview[i] = true
 					r.OKd("C08/R1", "map-range:"+key, "iteration over a map is order-insensitive or reviewed", c.PosOf(in), "reviewed: "+rv.Why+" [order-sensitive effects: "+strings.Join(why, "; ")+"]")
 					return
@@ -388,6 +395,14 @@ func c08EntropyRule(c *Ctx, scope []*ssa.Function) {
 			for i := range c08Entropy {
 				if c08Entropy[i].Fn == f.Name() && strings.HasPrefix(id, c08Entropy[i].Callee) {
 					allow = &c08Entropy[i]
+				}
+			}
+			if !inFSM && allow == nil {
+				// a clock reading that is only observed — handed to a logger or put into an atomic counter/gauge (health,
+				// metrics) — cannot reach the round state
+				if v, isVal := in.(ssa.Value); isVal && observedOnly(v, 0, map[ssa.Value]bool{}) {
+					r.OKd("C08/R1", key, "clock value is only observed (logging / atomic health counters)", c.PosOf(in), "")
+					return
 				}
 			}
 			if inFSM || allow == nil {
@@ -683,4 +698,66 @@ func c08SignatureAttribution(c *Ctx, rule string) {
 		}
 		r.Check(ok, rule, "node.processSignature:overwrite-unconditional", "the round id and sender of every received signature entry are overwritten unconditionally", c.Pos(ps.Pos()), "the overwrite is conditional or missing")
 	}
+}
+
+
+// observedOnly: every transitive use of v is an argument of a logging/formatting call, of a sync/atomic operation, of a
+// time.Time/Duration method (whose result is followed in turn), a conversion, or an argument of a module function whose
+// parameter is itself only observed (two levels). No store into a struct field, no comparison, no return.
+func observedOnly(v ssa.Value, depth int, seen map[ssa.Value]bool) bool {
+	if seen[v] {
+		return true
+	}
+	seen[v] = true
+	refs := v.Referrers()
+	if refs == nil {
+		return true
+	}
+	for _, ref := range *refs {
+		switch x := ref.(type) {
+		case *ssa.DebugRef:
+		case *ssa.MakeInterface, *ssa.ChangeType, *ssa.Convert, *ssa.Extract:
+			if !observedOnly(x.(ssa.Value), depth, seen) {
+				return false
+			}
+		case *ssa.Store:
+			// spilled into a local (value receivers): follow the local's loads
+			al, ok := x.Addr.(*ssa.Alloc)
+			if !ok || !observedOnly(al, depth, seen) {
+				return false
+			}
+		case *ssa.UnOp:
+			if !observedOnly(x, depth, seen) {
+				return false
+			}
+		case ssa.CallInstruction:
+			id := ssax.FuncID(ssax.CalleeObj(x))
+			switch {
+			case strings.HasPrefix(id, "sync/atomic."), strings.HasPrefix(id, "log."), strings.HasPrefix(id, "fmt.Print"), strings.HasPrefix(id, "fmt.Fprint"), strings.HasSuffix(id, ".Log"), strings.HasSuffix(id, ".Logf"):
+			case strings.HasPrefix(id, "time.(Time)."), strings.HasPrefix(id, "time.(Duration)."), id == "time.Since":
+				if val, isVal := x.(ssa.Value); isVal && !observedOnly(val, depth, seen) {
+					return false
+				}
+			default:
+				sc := x.Common().StaticCallee()
+				if sc == nil || !load.InModule(sc) || depth >= 2 || len(sc.Blocks) == 0 {
+					return false
+				}
+				for i, a := range x.Common().Args {
+					if a == v && i < len(sc.Params) && !observedOnly(sc.Params[i], depth+1, seen) {
+						return false
+					}
+				}
+				if val, isVal := x.(ssa.Value); isVal && val.Referrers() != nil && len(*val.Referrers()) > 0 {
+					// the callee's result is used: it may carry the clock value back
+					if !observedOnly(val, depth, seen) {
+						return false
+					}
+				}
+			}
+		default:
+			return false
+		}
+	}
+	return true
 }
